@@ -6,6 +6,7 @@ AllCons == ExecCons
 AllSpec == {"type","iface","enum"}
 Unlimited == 1000
 ExhUnits == {"prog","sub","mod"}
+ExhUnits0 == {"prog","sub","mod","main0"}
 ExhCons == {"if","do","dol","selcase","block"}
 NestCons == {"if","do","dol","selcase","block","where"}
 NestCons2 == {"forall","assoc","crit","seltype","doconc"}
@@ -37,6 +38,7 @@ SweepUnits == {"sub", "mod"}
 SweepCons == {"if", "dol", "where", "forall"}
 KLayout == {"brk", "join", "case", "cmt"}
 KLayout1 == {"brk", "join", "case"}
+KBrk == {"brk"}
 InsSmall == {1, 2, 3, 7, 11}
 InsAll == 1..12
 Set123 == {1, 2, 3}
